@@ -21,7 +21,7 @@ from ..engine import Finding, with_timeout, Timeout
 
 ID = 'C05'
 TITLE = 'Calendar business-day arithmetic agrees with day-by-day counting'
-LEAN_FILES = ['Basic', 'Civil', 'Calendar', 'CalendarDriver', 'CalendarLemmas', 'CivilLemmas', 'CivilGreg', 'C05']
+LEAN_FILES = ['Basic', 'Civil', 'Calendar', 'CalendarDriver', 'CalendarLemmas', 'CalendarEdge', 'CalendarObj', 'CivilLemmas', 'CivilGreg', 'C05']
 RULE = ('distinct protocol lines (is_bday/is_holiday/adjust/add/bdays/drange/registry call on a generated calendar) on which '
         'the implementation returned a value; `new` lines and the ymd self-test are not counted')
 TRUSTED = ['correspondence harness (pv.engine, pv.proto) and generators of pv.props.c05',
@@ -329,8 +329,10 @@ def generate(rng, tier):
             r = rng.random()
             if r < 0.7:
                 lines.append('(cal drange %d %d 1)' % (t, u))
-            elif r < 0.8:
+            elif r < 0.77:
                 lines.append('(cal drange %d %d -1)' % (u, t))
+            elif r < 0.82:      # k in {-2, -3, -5} (round k3; review t3 item 6): every k-th business day in reverse
+                lines.append('(cal drange %d %d %d)' % (u, t, rng.choice([-2, -3, -5])))
             elif r < 0.9:
                 lines.append('(cal drange %d %d %d)' % (t, u, rng.choice([2, 3, 5])))
             else:
@@ -378,7 +380,7 @@ def registry_case(rng, full=False):
             if hs and rng.random() < 0.5:     # a short run, so that the neighbours differ between registrations
                 hs = sorted(set(hs + [hs[0] + 1, hs[0] + 2]))
             hol = 'N' if rng.random() < 0.15 else ilist(hs)
-            we = 'N' if rng.random() < 0.6 else ilist(rng.choice(WEEKENDS[:3]))
+            we = 'N' if rng.random() < 0.6 else ilist(rng.choice(WEEKENDS))     # incl. calendar(key, weekend=[]): no weekend at all (round k3)
             a = 'N' if rng.random() < 0.2 else str(t0)
             b = 'N' if rng.random() < 0.2 else str(t0 + 730)
             if rng.random() < 0.4:     # the usual call: calendar(key, holidays) and nothing else
@@ -400,6 +402,9 @@ def registry_case(rng, full=False):
             t = min(max(rng.choice(near), t0 + 3), t0 + 700)
             lines.append('(cal bdays d %d %d)' % (t - 3, t + rng.randrange(0, 15)))
             lines.append('(cal drange %d %d 1)' % (t - 3, t + rng.randrange(0, 9)))
+            lines.append('(cal clock %d)' % t)      # the object's table through clock (round k3: registry_last_objects covers it)
+            if rng.random() < 0.5:
+                lines.append('(cal drange %d %d %d)' % (t + rng.randrange(0, 9), t - 3, rng.choice([-1, -2, -3])))
     return dict(tag='registry', lines=lines)
 
 
